@@ -38,6 +38,54 @@ theorem exc_identity (b p : α) (hb : 0 < 1 + b) (hp : 0 < 1 + p) : excCodeTerm 
       not_le.2 (div_neg_of_neg_of_pos (not_le.1 h) hD)
     rw [if_neg h, if_neg h', neg_div]
 
+/-- **C07 (weighted excitation fits)**: with a channel weight `w > 0` the programme compares the excitations of the weighted captures
+    `w·b` and `w·p`; the documented (unweighted) excitation difference is at most `max(w, 1/w)` times the weighted one, for
+    non-negative captures. (Used to carry the accuracy of a weighted excitation fit over to the documented objective.) -/
+theorem excite_weight_bound (w b p : α) (hw : 0 < w) (hb : 0 ≤ b) (hp : 0 ≤ p) :
+    |excite b - excite p| ≤ max w (1 / w) * |excite (w * b) - excite (w * p)| := by
+  have h1b : 0 < 1 + b := by linarith
+  have h1p : 0 < 1 + p := by linarith
+  have hwb : 0 ≤ w * b := mul_nonneg hw.le hb
+  have hwp : 0 ≤ w * p := mul_nonneg hw.le hp
+  have h1wb : 0 < 1 + w * b := by linarith
+  have h1wp : 0 < 1 + w * p := by linarith
+  rw [excite_sub b p h1b h1p, excite_sub (w * b) (w * p) h1wb h1wp]
+  have hD1 : 0 < (1 + b) * (1 + p) := mul_pos h1b h1p
+  have hD2 : 0 < (1 + w * b) * (1 + w * p) := mul_pos h1wb h1wp
+  rw [abs_div, abs_div, abs_of_pos hD1, abs_of_pos hD2, ← mul_sub, abs_mul, abs_of_pos hw]
+  have hM : 0 < max w (1 / w) := lt_max_of_lt_left hw
+  have habs : 0 ≤ |b - p| := abs_nonneg _
+  -- key: D2 ≤ (max w (1/w)) * w * D1
+  have key : (1 + w * b) * (1 + w * p) ≤ max w (1 / w) * w * ((1 + b) * (1 + p)) := by
+    rcases le_total 1 w with h | h
+    · have hm : w ≤ max w (1 / w) := le_max_left _ _
+      have e1 : 1 + w * b ≤ w * (1 + b) := by nlinarith
+      have e2 : 1 + w * p ≤ w * (1 + p) := by nlinarith
+      have : (1 + w * b) * (1 + w * p) ≤ (w * (1 + b)) * (w * (1 + p)) :=
+        mul_le_mul e1 e2 h1wp.le (by positivity)
+      calc (1 + w * b) * (1 + w * p) ≤ (w * (1 + b)) * (w * (1 + p)) := this
+        _ = w * w * ((1 + b) * (1 + p)) := by ring
+        _ ≤ max w (1 / w) * w * ((1 + b) * (1 + p)) := by
+            apply mul_le_mul_of_nonneg_right _ hD1.le
+            exact mul_le_mul_of_nonneg_right hm hw.le
+    · have hm : 1 / w ≤ max w (1 / w) := le_max_right _ _
+      have e1 : 1 + w * b ≤ 1 + b := by nlinarith
+      have e2 : 1 + w * p ≤ 1 + p := by nlinarith
+      have : (1 + w * b) * (1 + w * p) ≤ (1 + b) * (1 + p) := mul_le_mul e1 e2 h1wp.le h1b.le
+      have hone : (1 : α) ≤ max w (1 / w) * w := by
+        calc (1 : α) = 1 / w * w := by field_simp
+          _ ≤ max w (1 / w) * w := mul_le_mul_of_nonneg_right hm hw.le
+      calc (1 + w * b) * (1 + w * p) ≤ (1 + b) * (1 + p) := this
+        _ = 1 * ((1 + b) * (1 + p)) := by ring
+        _ ≤ max w (1 / w) * w * ((1 + b) * (1 + p)) := mul_le_mul_of_nonneg_right hone hD1.le
+  rw [div_le_iff₀ hD1]
+  calc |b - p| = |b - p| * ((1 + w * b) * (1 + w * p)) / ((1 + w * b) * (1 + w * p)) := by
+        field_simp
+    _ ≤ |b - p| * (max w (1 / w) * w * ((1 + b) * (1 + p))) / ((1 + w * b) * (1 + w * p)) := by
+        apply div_le_div_of_nonneg_right _ hD2.le
+        exact mul_le_mul_of_nonneg_left key habs
+    _ = max w (1 / w) * (w * |b - p| / ((1 + w * b) * (1 + w * p))) * ((1 + b) * (1 + p)) := by ring
+
 /-- one receptor: excitation error `≤ t` is the pair of linear inequalities used by `excLevelRows` -/
 theorem exc_term_le_iff (b p t : α) (hb : 0 < 1 + b) (hp : 0 < 1 + p) :
     excDocTerm b p ≤ t ↔ (b - p ≤ t * (1 + b) * (1 + p) ∧ p - b ≤ t * (1 + b) * (1 + p)) := by
